@@ -177,24 +177,45 @@ let handle_smtp (kind : string) (ins : string list) (outs : string list) : bool 
              let v = ref [] in
              let add x = if not (List.mem x !v) then v := x :: !v in
              let m_replies = ref [] and m_deliv = ref [] and ent_all = ref [] in
+             (* with failing writes: the deliveries of the one block the client had transmitted but not seen acknowledged *)
+             let extra_alt = ref None in
              List.iteri (fun idx stream ->
                (* stream field: hex chunks separated by '~' (a pause longer than the idle timeout), optionally
                   "!idle" / "!err" for how the connection ends; a plain hex field is one chunk ended by EOF *)
+               (* "^k": the server's writes fail after k reply lines (greeting included) *)
+               let (stream, wl) = match String.index_opt stream '^' with
+                 | Some i -> (String.sub stream 0 i,
+                              (try Some (nat_of_int (int_of_string (String.sub stream (i + 1) (String.length stream - i - 1)))) with _ -> None))
+                 | None -> (stream, None) in
                let (body, fin) = match String.index_opt stream '!' with
                  | Some i -> (String.sub stream 0 i,
                               (match String.sub stream (i + 1) (String.length stream - i - 1) with
                                | "idle" -> FIdle | "err" -> FErr | _ -> FEof))
                  | None -> (stream, FEof) in
                let chunks = List.map f (String.split_on_char '~' body) in
-               let ((items, tr), _) =
-                 match chunks, fin with
-                 | [w], FEof -> run_bytes c o w
-                 | _ -> run_net c o chunks fin in
-               m_replies := show_replies (replies_of tr) :: !m_replies;
+               let ((items, tr), seen) =
+                 match chunks, fin, wl with
+                 | [w], FEof, None -> let ((i, t), _) = run_bytes c o w in ((i, t), replies_of t)
+                 | _ -> run_net_w c o chunks fin wl in
+               m_replies := show_replies seen :: !m_replies;
                m_deliv := !m_deliv @ deliveries_of tr;
                let ir = parse_replies (try List.nth impl_replies idx with _ -> "-") in
                (* the oracles: the specifications applied to the implementation's answers *)
                let dlg = attach items ir in
+               (* failing writes: the client saw only some reply lines. The black-box rules are evaluated on the items whose
+                  replies it saw in full; the store may hold, beyond what those entitle, at most the deliveries of the one
+                  block it had completely transmitted (the iteration in which the write failed) *)
+               let dlg =
+                 if wl = None then dlg else begin
+                   let rec keep ds ts = match ds, ts with
+                     | (it, r) :: ds', ((_, mr), _) :: ts' when List.length r = List.length mr -> (it, r) :: keep ds' ts'
+                     | _ -> [] in
+                   let k = keep dlg tr in
+                   (match List.rev tr with
+                    | ((B (PBlock (_, _, _)), _), d) :: _ when List.length k < List.length tr -> extra_alt := Some d
+                    | _ -> ());
+                   k
+                 end in
                ent_all := !ent_all @ entitled c None [] [] dlg;
                if not (seq_ok false false O dlg) then add "C03:sequencing";
                if not (List.for_all reply_ok dlg) then add "C03:reply-shape";
@@ -203,10 +224,11 @@ let handle_smtp (kind : string) (ins : string list) (outs : string list) : bool 
                  add "C05:accept-decision-differs-from-domain-policy";
                  add "C17:defer-did-not-fall-back-to-policy"
                end;
-               if List.length (List.concat (List.map snd dlg)) <> List.length ir then add "C03:reply-count";
+               if wl = None && List.length (List.concat (List.map snd dlg)) <> List.length ir then add "C03:reply-count";
                (* C17: on every line a hook rule applies to, the reply must be the one the hook's answer dictates *)
-               List.iter2 (fun (it, r) ((_, mr), _) ->
-                 if hooked it && r <> mr then add "C17:reply-differs-from-hook-answer") dlg tr;
+               List.iteri (fun i (it, r) ->
+                 let ((_, mr), _) = List.nth tr i in
+                 if hooked it && r <> mr then add "C17:reply-differs-from-hook-answer") dlg;
                (* size rule on the implementation's dialogue *)
                let size_viol = List.exists (fun (it, r) ->
                  match it with
@@ -241,7 +263,10 @@ let handle_smtp (kind : string) (ins : string list) (outs : string list) : bool 
              if status <> "ok" then add "C03:session-error";
              let norm d = if par then sort_within d else d in
              let show_store = if kind = "asm" then show_store_asm else show_store in
-             if norm (show_store !ent_all) <> dump then begin
+             let store_ok =
+               norm (show_store !ent_all) = dump ||
+               (match !extra_alt with Some d -> norm (show_store (!ent_all @ d)) = dump | None -> false) in
+             if not store_ok then begin
                add "C01:store-differs-from-what-the-dialogue-entitles";
                add "C03:partial-phantom-or-misrouted-message";
                add "C05:session-store-or-accept-rule";
